@@ -105,6 +105,23 @@ def corruptions(d, ver, cat, tables):
             if not re.match(r'^([a-z0-9_-]{3,250}(\.(\[[0-9]+\]|[a-z0-9_-]{1,250}))*|id)\Z', sel): continue
             c = copy.deepcopy(d); c['granular_markings'] = [{'marking_ref': 'marking-definition--613f2e26-407d-48c7-9eca-b8e91df99dc9', 'selectors': [sel]}]
             yield (f'granular_markings: selector addressing nothing {sel}', c)
+    # "B may only be present together with A" rules of the specification text, with the FALSY values of the dependent property (0, 0.0, -0.0, false, ''): present is present
+    for typ, dep, needs, falsy in (('location', 'precision', ('latitude', 'longitude'), (0, 0.0, -0.0, 1.5)), ('location', 'latitude', ('longitude',), (0, 0.0, -0.0)), ('location', 'longitude', ('latitude',), (0, 0.0, -0.0)),
+                                   ('artifact', 'url', ('hashes',), ('http://x',)), ('email-message', 'body_multipart', ('is_multipart',), ([{'content_type': 't', 'body': 'b'}],)),
+                                   ('artifact', 'decryption_key', ('encryption_algorithm',), ('', 'k'))):
+        if d.get('type') != typ or dep not in props: continue
+        for fv in falsy:
+            c = copy.deepcopy(d)
+            for n_ in needs: c.pop(n_, None)
+            c[dep] = fv
+            if typ == 'location': c.setdefault('region', 'northern-america') if 'country' not in c else None
+            if typ == 'artifact' and dep == 'url': c.pop('payload_bin', None)
+            yield (f'co-constraint: {dep}={fv!r} without {"/".join(needs)}', c)
+    # members of a 2.0 observed-data carrying properties that belong to the other specification version
+    if d.get('type') == 'observed-data' and isinstance(d.get('objects'), dict):
+        for mk in d['objects']:
+            for extra in ({'spec_version': '2.1'}, {'spec_version': '2.0'}, {'id': d['objects'][mk].get('type', 'file') + '--' + G.UUID2}, {'spec_version': '2.1', 'id': d['objects'][mk].get('type', 'file') + '--' + G.UUID2}, {'defanged': False}):
+                c = copy.deepcopy(d); c['objects'][mk].update(extra); yield (f'observed-data member {mk}: carries {"/".join(sorted(extra))} ({extra.get("spec_version", "")})', c)
     c = copy.deepcopy(d); c['x_unknown_property'] = 1; yield ('unknown property added', c)
     c = copy.deepcopy(d); c['foo'] = 'bar'; yield ('unknown property (no x_ prefix) added', c)
     # co-constraints
